@@ -17,17 +17,18 @@ Inductive first_reject (s : st) : nat -> Prop :=
 | fr_deep a k f i r : reg_get s (id_of s a) = None -> skids_wf s a = (k, f, i) :: r ->
                       detached s k = true -> first_reject s k -> first_reject s a.
 
-Lemma first_reject_inner s a : Rank s -> first_reject s a ->
-  forall fuel, a < fuel ->
+Lemma first_reject_inner s a : first_reject s a ->
+  forall n fuel, depth_le s n a -> n < fuel ->
     (exists e, attach_inner fuel s a = Er s e) \/ (exists c, attach_inner fuel s a = Ok s (Some c)).
 Proof.
-  intros HK HF. induction HF as [a Hr|a k f i r Hr Hk Hd Hroot|a k f i r Hr Hk Hd HF IH]; intros fuel Hlt;
+  intros HF. induction HF as [a Hr|a k f i r Hr Hk Hd Hroot|a k f i r Hr Hk Hd HF IH]; intros n fuel Hdp Hlt;
     (destruct fuel as [|fuel]; [lia|]); simpl.
   - destruct (reg_get s (id_of s a)); [left; eauto | congruence].
   - rewrite Hr, Hk. simpl. rewrite Hd, Hroot. simpl. right; eauto.
   - rewrite Hr, Hk. simpl. rewrite Hd.
     assert (Hkk : In k (skids s a)). { apply in_skids. exists f, i. rewrite Hk. left; reflexivity. }
-    apply HK in Hkk. destruct (IH fuel ltac:(lia)) as [[e E]|[c E]]; rewrite E; [left | right]; eauto.
+    destruct n as [|n]; simpl in Hdp; [exfalso; exact (Hdp k Hkk)|].
+    destruct (IH n fuel (Hdp k Hkk) ltac:(lia)) as [[e E]|[c E]]; rewrite E; [left | right]; eauto.
 Qed.
 
 Section Frames2.
@@ -39,7 +40,8 @@ Section Frames2.
     exists e, step H ct s (OAttach a) = (s, RErr e) /\ documented e = true /\ Frame s s.
   Proof.
     intros HK Hl Hd HF. simpl. unfold op_attach. rewrite Hd. simpl. unfold attach_.
-    destruct (first_reject_inner s a HK HF (fuel_of s)) as [[e E]|[c E]]; [unfold fuel_of, live in *; lia| |];
+    destruct (first_reject_inner s a HF (List.length (heap s)) (fuel_of s)) as [[e E]|[c E]];
+      [apply rank_depth; exact HK | unfold fuel_of; lia | |];
       rewrite E; simpl.
     - exists e. split; [reflexivity|]. split; [|apply Frame_refl].
       rewrite (attach_inner_err _ _ _ _ _ E). reflexivity.
